@@ -17,6 +17,7 @@ import (
 	"reflect"
 	"runtime"
 	"sort"
+	"strings"
 	"sync"
 	"sync/atomic"
 	"time"
@@ -388,9 +389,16 @@ func main() {
 		c.Finish()
 	}
 	if *mode == "firstops" {
-		firstOps(c)
-		if *propID == "C18" {
-			firstGen(c)
+		if *propID != "C14" {
+			firstOps(c)
+		}
+		switch *propID {
+		case "C18":
+			firstGen(c, nil)
+		case "C14": // the hash entry points only
+			firstGen(c, func(name string) bool {
+				return strings.Contains(name, "mimc") || strings.Contains(name, "poseidon2") || strings.Contains(name, "pedersen-hash")
+			})
 		}
 		c.Finish()
 	}
@@ -413,6 +421,7 @@ func main() {
 	if mon.Selected("getters") {
 		globalGetters(c, w)
 	}
+	signatures(c, w) // filtered per package name
 	if mon.Selected("small-fields") {
 		smallFields(c, w)
 		smallFields2(c, w)
